@@ -252,7 +252,7 @@ func sexprEnd(s string) int {
 		return 0
 	}
 	if s[0] != '(' {
-		i := strings.IndexAny(s, " \t\n")
+		i := strings.IndexAny(s, " \t\n)")
 		if i < 0 {
 			return len(s)
 		}
